@@ -2349,6 +2349,20 @@ static bool detectIMF(const char *head, FileAndMemReader &fr)
 
 bool BW_MidiSequencer::loadMIDI(FileAndMemReader &fr)
 {
+    bool ret = loadMIDIFormat(fr);
+    if(!ret)
+    {
+        // Don't keep half-built tracks (or iterators into the previous song) around after a failure
+        buildSmfSetupReset(0);
+        m_trackBeginPosition = m_currentPosition;
+        m_loopBeginPosition = m_currentPosition;
+        m_rawSongsData.clear();
+    }
+    return ret;
+}
+
+bool BW_MidiSequencer::loadMIDIFormat(FileAndMemReader &fr)
+{
     size_t  fsize = 0;
     BW_MidiSequencer_UNUSED(fsize);
     m_parsingErrorsString.clear();
